@@ -116,7 +116,7 @@ func Build(ps []Pos, o Opts) *State {
 		denom := Denoms[a]
 		asset := types.AllianceAsset{
 			Denom:                denom,
-			RewardWeight:         nd.DecRange("w_"+an, "0", "10"),
+			RewardWeight:         nd.DecRange("w_"+an, "0.001", "10"),
 			RewardWeightRange:    types.RewardWeightRange{Min: math.LegacyZeroDec(), Max: math.LegacyNewDec(10)},
 			TakeRate:             math.LegacyZeroDec(),
 			RewardChangeRate:     math.LegacyOneDec(),
@@ -169,6 +169,10 @@ func Build(ps []Pos, o Opts) *State {
 				vs = nd.DecRange("vs_"+vn+an, "0.000000000000000001", maxShares)
 			}
 			tvs = tvs.Add(vs)
+			if !o.UnitPrice {
+				// bound (stated): delegator-share price of a validator within 10^-6 .. 10^6 validator shares
+				nd.Assume(nd.And(tds.LTE(vs.MulInt64(1000000)), vs.LTE(tds.MulInt64(1000000))))
+			}
 			info := types.NewAllianceValidatorInfo()
 			if old, found := e.K.GetAllianceValidatorInfo(e.Ctx, Vals[v]); found {
 				info = old
@@ -190,6 +194,9 @@ func Build(ps []Pos, o Opts) *State {
 				asset.TotalTokens = tvs.TruncateInt()
 			} else {
 				asset.TotalTokens = nd.IntRange("T_"+an, "1", o.MaxTok)
+				// bound (stated): validator-share price within 10^-6 .. 10^6 tokens
+				td := math.LegacyNewDecFromInt(asset.TotalTokens)
+				nd.Assume(nd.And(tvs.LTE(td.MulInt64(1000000)), td.LTE(tvs.MulInt64(1000000))))
 			}
 		} else {
 			asset.TotalTokens = math.ZeroInt()
